@@ -58,12 +58,15 @@ inline bool h_kind(const std::string& k) { return k == "item" || k == "entry" ||
 
 // a finding of the instrumentation: print it as the observation of the current op and stop (the process state
 // is not trustworthy afterwards; _exit skips destructors and the leak check)
+extern "C" void __sanitizer_print_stack_trace(void);
 [[noreturn]] inline void fatal(const std::string& what) {
+  if (getenv("VH_VERBOSE")) __sanitizer_print_stack_trace();
   std::cout << "FATAL " << what << std::endl;
   std::cout.flush();
   _exit(0);
 }
 
+extern "C" void __sanitizer_print_stack_trace(void);
 template<class T> struct kind_of { static std::string name() { return "o" + std::to_string(sizeof(T)); } static long item_off() { return -1; } };
 
 template<class T> class TrackAlloc {
@@ -76,7 +79,8 @@ public:
   template<class U> struct rebind { using other = TrackAlloc<U>; };
   int inst;
   explicit TrackAlloc(int i) : inst(i) {}
-  TrackAlloc() : inst(-1) { fatal("default-constructed allocator (the user's allocator instance was not propagated)"); }
+  // a default-constructed allocator means the instance supplied by the user was not propagated: reported, not fatal
+  TrackAlloc() : inst(-1) { if (getenv("VH_VERBOSE")) __sanitizer_print_stack_trace(); ledger().op_soft.push_back("default-allocator"); }
   TrackAlloc(const TrackAlloc& o) noexcept : inst(o.inst) {}
   template<class U> TrackAlloc(const TrackAlloc<U>& o) noexcept : inst(o.inst) {}
   TrackAlloc& operator=(const TrackAlloc& o) noexcept { inst = o.inst; return *this; }
